@@ -3002,7 +3002,16 @@ impl<'a> Visitor<'a, '_, Error> for JSONValidator<'a> {
             return Ok(());
           }
 
-          Ok(())
+          // No object key is in the domain of any other prelude type
+          if token::lookup_ident(ident.ident)
+            .in_standard_prelude()
+            .is_some()
+          {
+            return Ok(());
+          }
+
+          // A bareword key keeps its meaning whatever the occurrence is
+          self.visit_value(&token::Value::TEXT(ident.ident.into()))
         }
       },
       _ => {
